@@ -54,6 +54,7 @@ impl Replayer {
         let mut strs: HashMap<u64, *mut c_char> = HashMap::new();
         let mut bad: Option<(usize, String)> = None;
         let mut nkeys = 0usize;
+        let mut layouts: HashMap<u64, bool> = HashMap::new();
         clean_home(&self.home);
         let r = std::panic::catch_unwind(std::panic::AssertUnwindSafe(|| unsafe {
             for (i, c) in calls.iter().enumerate() {
@@ -64,7 +65,10 @@ impl Replayer {
                 self.rep.events += 1;
                 match f {
                     "riti_config_new" => {
-                        let real = RealConfig::new(&Cfg { layout: "phonetic".into(), psug: b, db, english: true, smart: true, ..Default::default() }, &self.home);
+                        let fixed = c["idx"].as_str() == Some("fixed");
+                        let real = RealConfig::new(&Cfg { layout: if fixed { "probhat".into() } else { "phonetic".into() }, psug: b, fsug: b, db, english: true,
+                                                          smart: true, vowel: true, chandra: true, kar: true, ..Default::default() }, &self.home);
+                        layouts.insert(h, fixed);
                         // RealConfig frees on drop; hand the raw pointer to the model's life cycle instead
                         let p = real.raw();
                         std::mem::forget(real);
@@ -218,8 +222,16 @@ impl Replayer {
                             _ => {}
                         }
                         // exercise the two path setters as well (same values): part of the 33 functions
-                        let lp = CString::new("avro_phonetic").unwrap();
+                        let lp = CString::new(if layouts.get(&h).copied().unwrap_or(false) {
+                            repo_dir().join("data/Probhat.json").to_string_lossy().into_owned()
+                        } else {
+                            "avro_phonetic".to_string()
+                        }).unwrap();
                         let _ = riti_config_set_layout_file(p, lp.as_ptr());
+                        if db {
+                            let dp = CString::new(repo_dir().join("data").to_string_lossy().into_owned()).unwrap();
+                            let _ = riti_config_set_database_dir(p, dp.as_ptr());
+                        }
                     }
                     _ => {}
                 }
